@@ -286,7 +286,7 @@ var colC28 *ev.Collector
 func propC28(t *rapid.T) {
 	col := colC28
 	col.Case()
-	cfg := irsem.GenCfg{MaxDepth: rapid.IntRange(0, 4).Draw(t, "depth"), GadgetProb: 10}
+	cfg := irsem.GenCfg{MaxDepth: rapid.IntRange(0, ev.Scale(4, 6)).Draw(t, "depth"), GadgetProb: 10}
 	e := irsem.GenExpr(t, cfg)
 	before := irsem.String(e)
 
